@@ -195,6 +195,10 @@ Proof.
 Qed.
 End Bin.
 
+(* the shared model of helpers.find_span_binsearch (Model.Basis, repaired) is this function: its tol argument is unused *)
+Lemma shared_binsearch_is_fix tol p (U : list R) num u : find_span_binsearch Rops tol p U num u = find_span_binsearch_fix Rops p U num u.
+Proof. reflexivity. Qed.
+
 (* hence evaluation does not depend on the find_span_func choice *)
 Theorem curve_point_sp_independent dim p U P u : sortedR U -> (p < length P)%nat -> (length P < length U)%nat -> knR U p <= u ->
   curve_point_sp Rops (find_span_binsearch_fix Rops) dim p U P u = curve_point_sp Rops (span_linear_opt Rops) dim p U P u /\
@@ -211,11 +215,11 @@ Proof.
   rewrite (binsearch_fix_eq_linear Uu u Hsu pu su Hpu HLu Hu), (binsearch_fix_eq_linear Uv v Hsv pv sv Hpv HLv Hv). split; reflexivity.
 Qed.
 
-(* the unrepaired tolerance shortcut (Model.Basis.find_span_binsearch, tol = 10e-6) is refuted by a knot inside the tolerance *)
+(* the unrepaired tolerance shortcut of the pinned tree (tol = 10e-6) is refuted by a knot inside the tolerance *)
 Theorem binsearch_tolerance_refuted : exists (U : list R) (u : R),
   let tol := 1 / 100000 in
   sortedR U /\ knR U 1 <= u <= knR U 3 /\
-  find_span_binsearch Rops tol 1 U 3 u <> Some (find_span_linear Rops 1 U 3 u).
+  find_span_binsearch_pinned Rops tol 1 U 3 u <> Some (find_span_linear Rops 1 U 3 u).
 Proof.
   exists [0; 0; 1 - 1 / 524288; 1; 1], (1 - 3 / 1048576). cbv zeta.
   split; [|split].
@@ -229,7 +233,7 @@ Proof.
     assert (L : find_span_linear Rops 1 [0; 0; 1 - 1 / 524288; 1; 1] 3 (1 - 3 / 1048576) = 1%nat).
     { unfold find_span_linear. cbn [find_span_linear_aux Nat.ltb Nat.leb andb kn nth]. rsimp. unfold Rleb.
       destruct (Rle_dec (1 - 1 / 524288) (1 - 3 / 1048576)) as [H|H]; [exfalso; lra|reflexivity]. }
-    unfold find_span_binsearch. cbn [Nat.pred]. rewrite E, L. discriminate.
+    unfold find_span_binsearch_pinned. cbn [Nat.pred]. rewrite E, L. discriminate.
 Qed.
 
 (* ================= 3. Pool.map = order-preserving map, for every chunking ================= *)
